@@ -38,7 +38,7 @@ def run(ck: Check) -> None:
         if gen.ed25519.Ed25519PrivateKey.from_private_bytes(s0).public_key().public_bytes(gen.serialization.Encoding.Raw, gen.serialization.PublicFormat.Raw)[0] == 0:
             seeds.append(s0)
             break
-    seeds += [bytes(rng.getrandbits(8) for _ in range(32)) for _ in range(300 if ck.thorough else 40)]
+    seeds += [bytes(rng.getrandbits(8) for _ in range(32)) for _ in range(ck.n(300, 40))]
     lines, expect = [], []
     ck.correspondences.add("corr:ed25519-vs-rfc8032-reference/bytes")
     for i, seed in enumerate(seeds):
